@@ -1006,6 +1006,7 @@ class SSHConnection(SSHPacketHandler, asyncio.Protocol):
         self._auth_in_progress = False
         self._auth_complete = False
         self._auth_final = False
+        self._auth_request_sent = False
         self._auth_methods = [b'none']
         self._auth_was_trivial = True
         self._username = ''
@@ -2078,6 +2079,7 @@ class SSHConnection(SSHPacketHandler, asyncio.Protocol):
 
             packet += String(sig)
 
+        self._auth_request_sent = True
         self.send_userauth_packet(MSG_USERAUTH_REQUEST, packet[1:],
                                   trivial=trivial)
 
@@ -2589,6 +2591,8 @@ class SSHConnection(SSHPacketHandler, asyncio.Protocol):
             else:
                 auth.auth_failed()
 
+            self._auth_request_sent = False
+
             # This method is only in SSHClientConnection
             # pylint: disable=no-member
             cast(SSHClientConnection, self).try_next_auth()
@@ -2601,7 +2605,7 @@ class SSHConnection(SSHPacketHandler, asyncio.Protocol):
 
         packet.check_end()
 
-        if self.is_client() and self._auth:
+        if self.is_client() and self._auth and self._auth_request_sent:
             auth = cast(ClientAuth, self._auth)
 
             if self._auth_was_trivial and self._disable_trivial_auth:
